@@ -157,6 +157,10 @@ fn check(args: &Args) -> i32 {
             }
             let sc = poolsim::PoolSim { property: leak(property) };
             parts.push(run_part(&sc, &cfg("poolsim"), &known, &mut verdict));
+            if property == "C15" {
+                // the same bound seen through a client built by Client::builder()
+                parts.push(run_part(&e2e::E2eIdleSim, &cfg("e2eidle"), &known, &mut verdict));
+            }
             if property == "C17" {
                 parts.push(run_part(&e2e::grammar::GrammarSim, &cfg("grammar"), &known, &mut verdict));
                 // panics seen while running the ordinary end-to-end workload count as well
@@ -267,6 +271,7 @@ fn replay(args: &Args) -> i32 {
         "eyesim" => replay_with(&eyesim::EyeSim { property: "C10" }, &rf, args.machine),
         "iosim" => replay_with(&iosim::IoSim, &rf, args.machine),
         "e2esim" => replay_with(&e2e::E2eSim, &rf, args.machine),
+        "e2eidle" => replay_with(&e2e::E2eIdleSim, &rf, args.machine),
         "shutdown" => replay_with(&e2e::shutdown::ShutdownSim, &rf, args.machine),
         "sniff" => replay_with(&e2e::sniff::SniffSim, &rf, args.machine),
         "grammar" => replay_with(&e2e::grammar::GrammarSim, &rf, args.machine),
@@ -306,6 +311,7 @@ fn determinism(args: &Args) -> i32 {
     match args.target.as_str() {
         "C18" => determinism_with(&iosim::IoSim, args),
         "C01" => determinism_with(&e2e::E2eSim, args),
+        "e2eidle" => determinism_with(&e2e::E2eIdleSim, args),
         "C07" => determinism_with(&e2e::shutdown::ShutdownSim, args),
         "C08" => determinism_with(&e2e::sniff::SniffSim, args),
         "C13" => determinism_with(&e2e::wire::WireSim, args),
